@@ -226,7 +226,7 @@ func diffKeys(a, b map[string]interface{}) []string {
 }
 
 func TestProjection(t *testing.T) {
-	ev.Rule(chk, "rapid: internal documents with 0-6 keys over every type x purposes x material (Ed25519 2018/2020 with genuine 32-byte OKP JWKs, JsonWebKey2020 over 4 curves, base58 material), 0-3 services of every endpoint shape with extra members, 0-3 alsoKnownAs URIs, other members; resolution models (commitments present/absent, anchor origin of several JSON types, deactivated, times 0 and > 0 incl. updated == created, version id, canonical / equivalent references, operation lists with non-monotone numbers and duplicate references); options (base, method contexts, include-operations flags); transformation info from GetTransformationInfoFor{Published,Unpublished} (label, domain, long form); oracle: external document == independent projection (kit/refdoc: own base58 / multibase, id qualification, controller, relationship sections exactly per purposes, services qualified with remaining members, alsoKnownAs unchanged, contexts = DID context, method contexts, base, one per key type in order of first use, no publicKey member) and metadata == model (commitments, anchor origin, deactivated, published, version id, RFC 3339 times when applicable, canonical / equivalent ids), operation lists present iff enabled, de-duplicated, ordered; non-trivial = >= 2 keys with different purposes or types, or base enabled, or an Ed25519 re-encoding")
+	ev.Rule(chk, "rapid: internal documents with 0-6 keys over every type x purposes x material (Ed25519 2018/2020 with genuine 32-byte OKP JWKs, JsonWebKey2020 over 4 curves, base58 material), 0-3 services of every endpoint shape with extra members, 0-3 alsoKnownAs URIs, other members; resolution models (commitments present/absent, anchor origin of several JSON types, deactivated, times 0 and > 0 incl. updated == created, version id, canonical / equivalent references, operation lists with non-monotone numbers and duplicate references); options (base, method contexts incl. ones equal to a key-suite context, include-operations flags); transformation info from GetTransformationInfoFor{Published,Unpublished} (label, domain, long form); oracle: external document == independent projection (kit/refdoc: own base58 / multibase, id qualification, controller, relationship sections exactly per purposes, services qualified with remaining members, alsoKnownAs unchanged, contexts = DID context, method contexts, base, one per key type in order of first use, no publicKey member) and metadata == model (commitments, anchor origin, deactivated, published, version id, RFC 3339 times when applicable, canonical / equivalent ids), operation lists present iff enabled, de-duplicated, ordered; non-trivial = >= 2 keys with different purposes or types, or base enabled, or an Ed25519 re-encoding")
 	ev.Rapid(t, chk, 1500, 15000, func(t *rapid.T) {
 		c := &Case{Namespace: "did:sidetree", Suffix: "EiD" + rapid.StringMatching(`[A-Za-z0-9_-]{6}`).Draw(t, "suffix")}
 		d := map[string]interface{}{}
@@ -286,7 +286,13 @@ func TestProjection(t *testing.T) {
 		}
 		c.Base = rapid.Bool().Draw(t, "base")
 		if rapid.Bool().Draw(t, "methodCtx") {
-			c.MethodCtx = []string{"https://w3id.org/did/v1/method", "https://second.example/ctx"}[:rapid.IntRange(1, 2).Draw(t, "methodCtxCount")]
+			// method contexts: free-form ones and, now and then, one that coincides with a key-suite context
+			pool := []string{"https://w3id.org/did/v1/method", "https://second.example/ctx", "https://w3id.org/security/suites/jws-2020/v1", "https://w3id.org/security/suites/ed25519-2018/v1", "https://w3id.org/security/suites/x25519-2019/v1", "https://www.w3.org/ns/did/v1"}
+			n := rapid.IntRange(1, 3).Draw(t, "methodCtxCount")
+			c.MethodCtx = nil
+			for i := 0; i < n; i++ {
+				c.MethodCtx = append(c.MethodCtx, rapid.SampledFrom(pool).Draw(t, "methodCtx"))
+			}
 		}
 		c.IncludePub, c.IncludeUnpub = rapid.Bool().Draw(t, "includePub"), rapid.Bool().Draw(t, "includeUnpub")
 		np := rapid.IntRange(0, 5).Draw(t, "pubOps")
